@@ -81,8 +81,8 @@ class _FnCodec:
 
 def run_schema(ctx, idx, config="tl2all", values=25, fills=25, mutations=4, label="c11", tl2=False):
     """one random schema: generate, build, compare. Returns counters dict or None when the generator rejected the schema."""
-    s = schemagen.generate(ctx.seed, "%s/%d" % (label, idx))
-    name = "rnd%s%d" % (label if label != "c11" else "", idx)
+    s = schemagen.generate(ctx.seed, "%s/%d" % (label, idx)) if idx >= 0 else schemagen.fixed_shapes()
+    name = "rnd%s%d" % (label if label != "c11" else "", idx) if idx >= 0 else "fixed_shapes_" + label
     path = os.path.join(ctx.work, name + ".tl")
     open(path, "w").write(s.text())
     pkg = codec.build_pkg(ctx, name, [path], config, must=False)
@@ -106,7 +106,10 @@ def run_schema(ctx, idx, config="tl2all", values=25, fills=25, mutations=4, labe
     items = [d for d in s.decls if not d.params] + list(s.functions)
     for d in items:
         for vi in range(values):
+            if vi == 1:
+                rc.force_long = r.pick([65789, 65790, 65791, 65786, 65787])  # one value per item with a string at the TL2 size boundary
             v = fc.value(d)
+            rc.force_long = 0
             for boxed in ([True, False] if d.kind in ("struct", "typedef") else [True]):
                 data = fc.enc(d, v, boxed)
                 if len(data) > 200000:
